@@ -502,6 +502,20 @@ func (s *Sim) userActions() []Action {
 				add("user.canary-strategy "+def.Key()+" +", func() { e.Spec.Strategy.Canary = def.Strategy.Canary.Object(); s.Store.ForceUpdate(e) })
 			}
 		}
+		if cfg.LabelEdits {
+			for _, v := range []string{"1.0", "1.1"} {
+				v := v
+				if e.Labels["app.kubernetes.io/version"] != v {
+					add("user.label-eds "+def.Key()+" version="+v, func() {
+						if e.Labels == nil {
+							e.Labels = map[string]string{}
+						}
+						e.Labels["app.kubernetes.io/version"] = v
+						s.Store.ForceUpdate(e)
+					})
+				}
+			}
+		}
 		if cfg.ModeEdits && e.Spec.Strategy.Canary != nil {
 			// only the mode is changed; the durations written by the defaulting stay
 			other := edsv1.ExtendedDaemonSetSpecStrategyCanaryValidationModeManual
